@@ -464,7 +464,10 @@ fn where_constant_twins(rng: &mut ChaCha8Rng, out: &mut UnitOut, only: Option<us
         let (d, td) = pick(rng);
         let dv = [0.25, 0.5, 2.0, 4.0][rng.gen_range(0..4)];
         // template with B standing for the right operand, so that it can be routed through a second constant
-        let (value, template, shape): (f64, String, &str) = match rng.gen_range(0..7) {
+        let dv2 = [2.0, 4.0, 0.5][rng.gen_range(0..3)];
+        let (value, template, shape): (f64, String, &str) = match rng.gen_range(0..9) {
+            7 => (b / dv / dv2, format!("B / {dv} / {dv2}"), "a / d / e"),
+            8 => (b / dv * d, format!("B / {dv} * {td}"), "a / d * e"),
             0 => (a - b, format!("{ta} - B"), "a - b"),
             1 => (a + b, format!("{ta} + B"), "a + b"),
             2 => (a * b, format!("{ta} * B"), "a * b"),
@@ -660,7 +663,7 @@ impl Driver for C10 {
         }
     }
     fn rule(&self) -> String {
-        "(a) Exp::simplify, Exp::flatten and flatten().simplify() on every expression tree with <= 2 operators over leaves {x, y, 0, 1, -0.0, 2, 0.5, 3} and operators neg, abs, not (both forms), + - * /, min, max, and/or (n-ary and BinOp forms), xor, implies, iff (units 0..99 sweep this finite set completely at every run), plus random trees of depth <= 4 with 1..3-ary and/or/min/max; each is evaluated exactly at the 16 assignments x,y in {0,1,2,-3/2}: defined values must be preserved, a defined expression must stay defined, a division by zero must not disappear, simplify must be idempotent. (b) G-model models whose literal products c*e are re-spelled as c*x, x*c, -(-c)*x, (0-(-c))*x, (c/2+c/2)*x, x/(1/c), 1*c*x, -((-c)*x), -(x) for c = -1 (one model in five gets an extra row c*(x - k) rel r with c in {-1, -2, 2} so that products over sums with a constant occur): both twins are compiled; they must be accepted or rejected alike (same error kind) and, when accepted, accept the same assignments with the same best objective on the C01 point sets. (c) a coefficient computed in the where-section from integer and decimal literals (a - b, a + b, a * b, a / d, (a - b) * d, -a + b, a - b - d, optionally through a second constant), the same value written as a literal, and the same expression written inline must give the same coefficients (1e-12). non-trivial = expression with at least one decided assignment / twin pair with >= 3 decided assignments".into()
+        "(a) Exp::simplify, Exp::flatten and flatten().simplify() on every expression tree with <= 2 operators over leaves {x, y, 0, 1, -0.0, 2, 0.5, 3} and operators neg, abs, not (both forms), + - * /, min, max, and/or (n-ary and BinOp forms), xor, implies, iff (units 0..99 sweep this finite set completely at every run), plus random trees of depth <= 4 with 1..3-ary and/or/min/max; each is evaluated exactly at the 16 assignments x,y in {0,1,2,-3/2}: defined values must be preserved, a defined expression must stay defined, a division by zero must not disappear, simplify must be idempotent. (b) G-model models whose literal products c*e are re-spelled as c*x, x*c, -(-c)*x, (0-(-c))*x, (c/2+c/2)*x, x/(1/c), 1*c*x, -((-c)*x), -(x) for c = -1 (one model in five gets an extra row c*(x - k) rel r with c in {-1, -2, 2} so that products over sums with a constant occur): both twins are compiled; they must be accepted or rejected alike (same error kind) and, when accepted, accept the same assignments with the same best objective on the C01 point sets. (c) a coefficient computed in the where-section from integer and decimal literals (a - b, a + b, a * b, a / d, (a - b) * d, -a + b, a - b - d, a / d / e, a / d * e, optionally through a second constant), the same value written as a literal, and the same expression written inline must give the same coefficients (1e-12). non-trivial = expression with at least one decided assignment / twin pair with >= 3 decided assignments".into()
     }
     fn thresholds(&self, tier: Tier) -> Thresholds {
         let s = tier.pick(1, 10);
